@@ -138,11 +138,11 @@ class Built:
             return self.by_orig.get(id(conf.orig_fn))
         return None
 
-    def install_hook(self):
+    def install_hook(self, ov=None):
         if not self.hook:
             omro._verif_reorder = None
             return
-        ov = self.ov
+        ov = ov if ov is not None else self.ov
         me = self
 
         def reorder(site, xs):
@@ -170,7 +170,7 @@ class Built:
         """returns (outcome, entered) with outcome = ["run", mid] | ["nomethod"] | ["ambig"] | ["exc", name];
         entered = list of method ids whose bodies ran, in order"""
         kw = kw or {}
-        self.install_hook()
+        self.install_hook(getattr(ov, "__ovld__", ov))
         del self.log[:]
         del self.predlog[:]
         try:
